@@ -33,7 +33,7 @@ theorem entry_ok (x : Ext) (n : Nat) {st : StructTy} {props : List (String × SP
     (ih : ∀ kp, kp ∈ props → RTAt (srun x (n + 2)) kp.2.ty)
     {m : List (String × SV)}
     (hent : ∀ kv, kv ∈ m → ∃ p v0, lookupS kv.1 props = some p ∧ p.disabled = false ∧ srun x (n + 2) .U p.ty v0 = .ok kv.2)
-    (habs : ∀ kp, kp ∈ props → hasKey kp.1 m = false → dflStep (n + 2) kp.2 = .ok none)
+    (habs : ∀ kp, kp ∈ props → hasKey kp.1 m = false → dflStep (fieldSkips st kp.1) (n + 2) kp.2 = .ok none)
     (hi : interdeps (rulesOf props) (fun k => hasKey k m) = .ok ())
     {kv : String × SV} (hkv : kv ∈ expectedBack st props m) :
     ∃ a b, EntryOK (srun x (n + 2)) props m kv a b := by
@@ -218,7 +218,7 @@ theorem rt_obj (x : Ext) (n : Nat) (id : String) {st : StructTy} (ptrT : Bool) {
     keysOf_map_val _ _
   have hkeysm' : keysOf ((expectedBack st props m).map fun kv => (kv.1, B kv)) = keysOf (expectedBack st props m) :=
     keysOf_map_val _ _
-  have hnoadd : applyDefaultsS (n + 2) props ((expectedBack st props m).map fun kv => (kv.1, A kv)) =
+  have hnoadd : applyDefaultsS st (n + 2) props ((expectedBack st props m).map fun kv => (kv.1, A kv)) =
       .ok ((expectedBack st props m).map fun kv => (kv.1, A kv)) := by
     apply applyDefaultsS_noadd
     intro kp hkp
@@ -239,7 +239,7 @@ theorem rt_obj (x : Ext) (n : Nat) (id : String) {st : StructTy} (ptrT : Bool) {
         · obtain ⟨hpl, hd, _⟩ := hspec he
           exact dflStep_plainLeaf hpl hd
         · rw [hmdis kp hkp v hlm] at hdis; cases hdis
-  have hraw2 : sobjRaw (srun x (n + 2)) (n + 2) props
+  have hraw2 : sobjRaw (srun x (n + 2)) (n + 2) st props
       (.val (toStrAny ((expectedBack st props m).map fun kv => (kv.1, A kv)))) =
       .ok ((expectedBack st props m).map fun kv => (kv.1, B kv)) := by
     unfold sobjRaw
